@@ -392,6 +392,18 @@ where
         #[cfg(feature = "log")]
         log::debug!("{}", control);
         match control {
+            // A close has already been sent: a second close request (`close()` called
+            // again after it was cancelled, or the handle dropped while the peer's close is
+            // still awaited) must not put another close frame on the wire
+            ConnectionControl::Close(_)
+                if matches!(
+                    self.connection.local_state(),
+                    ConnectionState::CloseSent
+                        | ConnectionState::Discarding
+                        | ConnectionState::ClosePipe
+                        | ConnectionState::OpenClosePipe
+                        | ConnectionState::End
+                ) => {}
             ConnectionControl::Close(error) => {
                 // Record a locally initiated close with an error before the
                 // channels close, so sessions and links observe the local
